@@ -11,6 +11,7 @@ import (
 	"path/filepath"
 	"strings"
 	"sync"
+	"syscall"
 	"time"
 
 	"golang.org/x/sys/unix"
@@ -267,6 +268,16 @@ func (n *Node) signal(sig os.Signal, allowOverride bool) {
 	}
 	if status == NodeStatusRunning {
 		n.data.State.Status = NodeStatusCancel
+	}
+}
+
+// kill sends SIGKILL to the process group of the node's command, if it has
+// been started.
+func (n *Node) kill() {
+	n.mu.Lock()
+	defer n.mu.Unlock()
+	if n.cmd != nil {
+		_ = n.cmd.Kill(syscall.SIGKILL)
 	}
 }
 
